@@ -139,6 +139,32 @@ def run(F, R):
             continue
         R.bad("C01.R2", f"{root}:default={val.replace('adt:', '')}", f"a {ndc}-way Arrow-type dispatch falls through to the fabricated value {val.replace('adt:', '')} for a type it does not handle, instead of failing: the statement returns a wrong answer for that column type", g.loc(bb), dict(downcasts=ndc))
     R.ok("C01.R2", "ladders-examined", dict(defaults=len(seen)))
+    # the same defect written as a `match` on the Arrow type: typed arms construct data-carrying variants of an enum, the
+    # wildcard arm answers that enum's unit variant
+    nm = 0
+    for p, b in sorted(F.bodies.items()):
+        if not b["file"].startswith("src/physical/") or b["kind"] not in ("fn", "method", "closure"):
+            continue
+        for m in b["matches"]:
+            if m["kind"] != "match" or not m["scrut"].endswith("DataType"):
+                continue
+            typed = [a for a in m["arms"] if "DataType::" in a["pat"]]
+            wild = [a for a in m["arms"] if a["pat"].strip() == "_" or a["pat"].startswith("$")]
+            if len(typed) < 3 or not wild:
+                continue
+            nm += 1
+            ctor = [a["cls"][5:] for a in typed if a["cls"].startswith("call:")]
+            enums = {c.rsplit("::", 1)[0] for c in ctor}
+            w = wild[-1]
+            if w["cls"].startswith("path:") and w["cls"][5:].rsplit("::", 1)[0] in enums and len(ctor) >= 3:
+                root = b.get("root") or p
+                val = w["cls"][5:]
+                if root in REVIEWED:
+                    ok, why = REVIEWED[root](F)
+                    R.check(ok, "C01.R2", f"{root}:default-unreachable-with-wrong-answer", f"reviewed exception no longer holds ({why})", f"{b['file']}:{w['span'][0]}", dict(premise=why))
+                    continue
+                R.bad("C01.R2", f"{root}:default={val}", f"a {len(typed)}-way match on the Arrow type answers the fabricated value {val} for every type it does not list, instead of failing: values of such a type all look alike (one group / one cache key / NULL)", f"{b['file']}:{w['span'][0]}", dict(typed_arms=len(typed)))
+    R.ok("C01.R2", "type-matches-examined", dict(matches=nm), nontrivial=False)
 
 
 def _ord(g, c):
